@@ -149,18 +149,18 @@ def ensure_makefile():
         run(["coq_makefile", "-f", "_CoqProject", "-o", "Makefile"], 60, cwd=COQ)
 
 
-def make(targets, timeout=1500):
+def make(targets, timeout=3600):
     ensure_makefile()
     rc, out = run(["make", "-j", str(NPROC), "-k"] + list(targets), timeout, cwd=COQ)
     return rc == 0, out
 
 
-def coqc(path, timeout=600):
+def coqc(path, timeout=2400):
     rc, out = run(["coqc", "-Q", COQ, "Verif", "-w", "-notation-overridden,-deprecated-hint-without-locality,-deprecated-instance-without-locality", path], timeout, cwd=COQ)
     return rc == 0, out
 
 
-def check_props(prop_id, timeout=900):
+def check_props(prop_id, timeout=2400):
     """compile Props/<id>.v; returns dict(ok, theorems, closed, axioms, log)"""
     path = os.path.join(COQ, "Props", prop_id + ".v")
     src = open(path).read()
@@ -191,7 +191,7 @@ def forbidden_scan():
 
 
 # ---------------------------------------------------------------- model evaluation
-def eval_cases(tag, imports, cases, shard=400, timeout=900, prelude=""):
+def eval_cases(tag, imports, cases, shard=400, timeout=3600, prelude=""):          # generous: the machine may be shared
     """cases: list of (gallina_expr_of_type_tree, expected_tree_python).
     Returns (mismatch_indices, error_log_or_None)."""
     os.makedirs(BUILD, exist_ok=True)
@@ -242,7 +242,7 @@ def eval_cases(tag, imports, cases, shard=400, timeout=900, prelude=""):
     return sorted(mism), err
 
 
-def eval_one(tag, imports, expr, prelude="", timeout=120):
+def eval_one(tag, imports, expr, prelude="", timeout=600):
     """model output tree of a single case (diagnosis of a mismatch)"""
     path = os.path.join(BUILD, f"one_{tag}.v")
     with open(path, "w") as f:
